@@ -247,6 +247,19 @@ class DistinctCountCheck(AbstractCheck):
 
         # Build and test Python expression for validation.
         self._expression = DistinctCountCheck._COUNT_NAME + rule[column_where_field_name_ends:]
+        try:
+            names_in_expression = set(compile(self._expression, "<rule>", "eval").co_names)
+        except (SyntaxError, ValueError) as error:
+            raise errors.InterfaceError(
+                "cannot evaluate count expression %r: %s" % (self._expression, error), self.location_of_rule
+            )
+        names_in_expression.discard(DistinctCountCheck._COUNT_NAME)
+        if names_in_expression:
+            raise errors.InterfaceError(
+                "count expression %r must refer only to the field to count but also refers to: %s"
+                % (self._expression, _tools.human_readable_list(sorted(names_in_expression), "and")),
+                self.location_of_rule,
+            )
         self._distinct_value_to_count_map = None
         self.reset()
         self._eval()
